@@ -141,7 +141,12 @@ class Ctx(object):
 
     def check(self, cond, clause, key, detail=""):
         if not cond:
-            self.fail(clause, key, detail() if callable(detail) else detail)
+            if callable(detail):
+                try:
+                    detail = detail()
+                except Exception as e:  # a broken message must never turn a violation into a harness error
+                    detail = "(detail unavailable: %s: %s)" % (type(e).__name__, e)
+            self.fail(clause, key, detail)
             return False
         return True
 
